@@ -92,8 +92,8 @@ class FG:
             v = self.c(VARS)
             self.lines.append("%s%s = %s" % (pad, v, self.expr(defined)))
             return defined | {v}
-        if r == 4 and defined - {n for n in defined if n[0] == "n"}:
-            v = self.c(sorted(n for n in defined if n[0] != "n"))  # never the loop counters n0, n1 ...
+        if r == 4 and defined - {n for n in defined if n[0] == "n"} - ({"x"} if self.flag("planted") else set()):
+            v = self.c(sorted(n for n in defined if n[0] != "n" and not (n == "x" and self.flag("planted"))))  # never the loop counters n0, n1 ...
             self.lines.append("%s%s %s= %s" % (pad, v, self.c(["+", "-", "*"]), self.expr(defined, 1)))
             return defined
         if r <= 6:
@@ -150,7 +150,10 @@ class FG:
             head.insert(0, '"""module docstring mentioning a, b and G"""')
         ind = 1
         if self.method:
-            head += ["class K:", "    def __init__(self):", "        self.t = 2", "    def host(self, %s):" % ", ".join(params)]
+            head += ["class K:", "    def __init__(self):", "        self.t = 2"]
+            if self.flag("planted"):
+                head += ["    @classmethod", "    def twin(cls, %s):" % params[0], "        return %s * 3 + 1" % params[0]]
+            head += ["    def host(self, %s):" % ", ".join(params)]
             ind = 2
         else:
             head += ["def host(%s):" % ", ".join(params)]
@@ -170,6 +173,15 @@ class FG:
                 defined.add(v)
         self.block(ind, defined, 2, False)
         self.block(ind, defined, 2, False)
+        if self.flag("planted"):
+            # the same expression over a never-reassigned parameter at several places: after a nested compound statement
+            # inside a block, and again outside that block (what similar=True has to treat as one value)
+            e_ = "%s * 3 + 1" % params[0]
+            self.lines.append("%sif %s:" % (pad, self.cond(defined)))
+            self.lines.append("%s    if %s:" % (pad, self.cond(defined)))
+            self.lines.append("%s        b = 1" % pad)
+            self.lines.append("%s    c = %s" % (pad, e_))
+            self.lines.append("%sd = %s" % (pad, e_))
         self.lines.append("%sreturn %s" % (pad, " + ".join(sorted(self.c([["a", "b"], ["a", "b", "c"], ["a", "b", "c", "d", "e"], ["e"]])))))
         body = list(self.lines)
         tail = []
@@ -178,6 +190,8 @@ class FG:
             if self.method:
                 tail.append("o = K()")
                 tail.append("print(o.host(%s), o.t, G)" % args)
+                if self.flag("planted"):
+                    tail.append("print(K.twin(2))")
             else:
                 tail.append("print(host(%s), G)" % args)
         src = "\n".join(head + body + tail) + "\n"
@@ -190,7 +204,7 @@ class FG:
         }
 
 
-FFLAGS = ["method", "comprehension", "comp_shadow", "while", "global_write", "break_continue", "early_return", "print_stmt", "docstring", "loop_else"]
+FFLAGS = ["method", "comprehension", "comp_shadow", "while", "global_write", "break_continue", "early_return", "print_stmt", "docstring", "loop_else", "planted"]
 
 
 @st.composite
